@@ -123,6 +123,49 @@ Definition visit_until {A} (n : nat) (l : list A) : list A * bool :=
   | S _ => if Nat.leb n (length l) then (firstn n l, false) else (l, true)
   end.
 
+(* ---------- re-entrant iteration: the consumer mutates the map it is iterating ----------
+   ForEach/ForEachReverse keep a pointer to the current element outside the lock, call the consumer, and only then
+   read currentEntry.next / .prev (under a fresh RLock). A consumer (or another goroutine between two steps) may
+   Set / Delete / Clear in the meantime; a removed element keeps its prev/next pointers, so the walk continues from it.
+   A consumer is scripted: the i-th invocation runs the i-th list of mutations and returns the i-th flag; after the
+   end of the script the consumer mutates nothing and returns true. *)
+Inductive mop := MSet (k v : N) | MDel (k : N) | MClear.
+
+Definition run_mop (o : omap) (m : mop) : omap :=
+  match m with
+  | MSet k v => fst (om_set o k v)
+  | MDel k => fst (om_delete o k)
+  | MClear => om_clear o
+  end.
+
+Definition run_mops (o : omap) (l : list mop) : omap := fold_left run_mop l o.
+
+Definition ptr_of (next : node -> option nat) (m : list node) (a : nat) : option nat :=
+  match nth_error m a with Some n => next n | None => None end.
+
+Fixpoint foreach_re (next : node -> option nat) (o : omap) (cur : option nat) (script : list (list mop * bool))
+  : omap * list (N * N) * bool :=
+  match script with
+  | [] => (o, walk next (mem o) (length (mem o)) cur, true)
+  | (ops, cont) :: rest =>
+      match cur with
+      | None => (o, [], true)
+      | Some a =>
+          match nth_error (mem o) a with
+          | None => (o, [], true)
+          | Some n =>
+              let o1 := run_mops o ops in                       (* consumer(currentEntry.key, currentEntry.value) *)
+              if cont then
+                let '(o2, vis, b) := foreach_re next o1 (ptr_of next (mem o1) a) rest in   (* currentEntry.next, read afterwards *)
+                (o2, (nkey n, nval n) :: vis, b)
+              else (o1, [(nkey n, nval n)], false)
+          end
+      end
+  end.
+
+Definition om_foreach_re (o : omap) (script : list (list mop * bool)) := foreach_re nnext o (head o) script.
+Definition om_foreachrev_re (o : omap) (script : list (list mop * bool)) := foreach_re nprev o (tail o) script.
+
 Definition om_clone (o : omap) : omap := fold_left (fun c kv => fst (om_set c (fst kv) (snd kv))) (om_list o) om_empty.
 
 (* ---------- set / readableSet ---------- *)
